@@ -46,7 +46,7 @@ class PuppetError2(RuntimeError):
 
 # variants of the `raise` op: ['raise'] PuppetError, ['raise', 'rt'] a RuntimeError, ['raise', 'ce'] asyncio.CancelledError raised by
 # the handler's own code although nobody cancelled it (what a handler sees when something it awaits was cancelled by a third party)
-_RAISES = {'rt': PuppetError2, 'ce': asyncio.CancelledError}
+_RAISES = {'rt': PuppetError2, 'ce': asyncio.CancelledError, 'to': TimeoutError}
 
 
 _EVENT_CLASSES = {}
@@ -432,6 +432,7 @@ def make_async_handler(rec, hdef, bus):
     async def h(event):
         act = _enter(rec, hdef, bus, event, False)
         ret = None
+        cleanup = [0]
         try:
             kids = []
             for op in script_for(hdef, scn, event.event_type):
@@ -439,6 +440,8 @@ def make_async_handler(rec, hdef, bus):
                 if k == 'd':
                     c = rec.new_event(op[2], **_opts(rec, op, kids))
                     kids.append(c if _do_dispatch(rec, ('A', act), rec.buses[op[1]], c) else None)
+                elif k == 'cl':      # from here on, a cancellation of this handler is followed by op[1] ms of awaited clean-up
+                    cleanup[0] = op[1]
                 elif k == 'rd':
                     _do_dispatch(rec, ('A', act), rec.buses[op[1]], event)
                 elif k == 'a':
@@ -514,6 +517,10 @@ def make_async_handler(rec, hdef, bus):
                 else:
                     raise AssertionError('unknown op %r' % (op,))
         except asyncio.CancelledError as ex:
+            if cleanup[0] and rec.raised.get('a%d' % act) is not ex:
+                # a handler with asynchronous clean-up (try / finally with awaits): it goes on for a while after it was cancelled
+                rec.log('HOp', act=act, op='cleanup')
+                await _sleep(rec, cleanup[0])
             _exit(rec, act, 'raise' if rec.raised.get('a%d' % act) is ex else 'cancel')
             raise
         except vloop.LoopAbort:
